@@ -343,7 +343,96 @@ def gen_c20_grid(index):
     return {'world': world, 'ops': ops, 'meta': {'grid': [t, s, kind]}}
 
 
+
+
+# ---------------------------------------------------------------------------
+# witnesses: (type, section, key, v1, v2, abbreviation, extra user config) such that the documented
+# meaning of the key makes expand(abbreviation) differ between v1 and v2 (validated on the pinned
+# tree). Whatever layer a value comes from, it must have its effect on the OUTPUT: this catches code
+# that reads an option from the wrong place (the raw user layer, a module constant captured at import,
+# a stale copy) although the resolved Config is right.
+WITNESSES = [
+    ('markup', 'options', 'output.indent', '\t', '  ', 'div>p', {}),
+    ('markup', 'options', 'output.baseIndent', '', '  ', 'div>p', {}),
+    ('markup', 'options', 'output.newline', '\n', '\r\n', 'div>p', {}),
+    ('markup', 'options', 'output.tagCase', '', 'upper', 'div', {}),
+    ('markup', 'options', 'output.attributeCase', '', 'upper', 'div[title=a]', {}),
+    ('markup', 'options', 'output.attributeQuotes', 'double', 'single', 'div[title=a]', {}),
+    ('markup', 'options', 'output.format', True, False, 'div>p', {}),
+    ('markup', 'options', 'output.formatLeafNode', False, True, 'div>p', {}),
+    ('markup', 'options', 'output.formatSkip', ['html'], [], 'html>body>p', {}),
+    ('markup', 'options', 'output.formatForce', ['body'], [], 'div>body', {}),
+    ('markup', 'options', 'output.inlineBreak', 3, 0, 'p>a+b+i', {}),
+    ('markup', 'options', 'output.compactBoolean', False, True, 'input[disabled.]', {}),
+    ('markup', 'options', 'output.booleanAttributes', ['disabled'], ['foo'], 'div[foo]', {}),
+    ('markup', 'options', 'output.reverseAttributes', False, True, 'a[title=x]', {}),
+    ('markup', 'options', 'output.selfClosingStyle', 'html', 'xhtml', 'br', {}),
+    ('markup', 'options', 'markup.href', True, False, 'a', {'text': 'http://emmet.io'}),
+    ('markup', 'options', 'comment.enabled', False, True, 'div#a', {}),
+    ('markup', 'options', 'comment.trigger', ['id', 'class'], ['id'], 'div.a', {'options': {'comment.enabled': True}}),
+    ('markup', 'options', 'comment.before', '', '<!-- b -->', 'div#a', {'options': {'comment.enabled': True}}),
+    ('markup', 'options', 'comment.after', '\n<!-- /[#ID][.CLASS] -->', '<!-- e -->', 'div#a', {'options': {'comment.enabled': True}}),
+    ('markup', 'options', 'bem.enabled', False, True, '.b>.-e', {}),
+    ('markup', 'options', 'bem.element', '__', '-', '.b>.-e', {'options': {'bem.enabled': True}}),
+    ('markup', 'options', 'bem.modifier', '_', '--', '.b_m', {'options': {'bem.enabled': True}}),
+    ('markup', 'options', 'jsx.enabled', False, True, 'Foo.Bar', {}),
+    ('markup', 'options', 'inlineElements', ['span', 'b', 'a'], [], 'div>span+b', {}),
+    ('markup', 'options', 'markup.attributes', {'class': 'klass'}, {'class': 'className'}, 'div.a', {}),
+    ('markup', 'variables', 'lang', 'en', 'de', 'html[lang=${lang}]', {}),
+    ('markup', 'variables', 'charset', 'UTF-8', 'latin1', '!', {}),
+    ('markup', 'snippets', 'a', 'a[href]', 'a.x', 'a', {}),
+    ('markup', 'snippets', 'zz', 'div.z1', 'div.z2', 'ul>zz', {}),
+    ('stylesheet', 'options', 'stylesheet.between', ': ', ':', 'm10', {}),
+    ('stylesheet', 'options', 'stylesheet.after', ';', '', 'm10', {}),
+    ('stylesheet', 'options', 'stylesheet.intUnit', 'px', 'pt', 'm10', {}),
+    ('stylesheet', 'options', 'stylesheet.floatUnit', 'em', 'rem', 'm1.5', {}),
+    ('stylesheet', 'options', 'stylesheet.unitAliases', {'p': '%'}, {'p': 'pt'}, 'm10p', {}),
+    ('stylesheet', 'options', 'stylesheet.unitless', ['z-index'], [], 'z10', {}),
+    ('stylesheet', 'options', 'stylesheet.keywords', ['auto'], [], 'm:a', {}),
+    ('stylesheet', 'options', 'stylesheet.shortHex', True, False, 'c#fff', {}),
+    ('stylesheet', 'options', 'stylesheet.json', False, True, 'm10', {}),
+    ('stylesheet', 'options', 'stylesheet.jsonDoubleQuotes', False, True, 'd:b', {'options': {'stylesheet.json': True}}),
+    ('stylesheet', 'options', 'stylesheet.fuzzySearchMinScore', 0, 1, 'mrgn10', {}),
+    ('stylesheet', 'options', 'stylesheet.skipUnmatched', True, False, 'xyz', {}),
+    ('stylesheet', 'options', 'output.format', True, False, 'm10+p5', {}),
+    ('stylesheet', 'options', 'output.newline', '\n', '\r\n', 'm10+p5', {}),
+    ('stylesheet', 'options', 'output.baseIndent', '', '  ', 'm10+p5', {}),
+    ('stylesheet', 'snippets', 'm', 'margin', 'margin-x', 'm10', {}),
+]
+FIXED_SIZE = GRID_SIZE + len(WITNESSES)
+
+
+def gen_c20_witness(wi):
+    t, sec, key, v1, v2, abbr, extra = WITNESSES[wi]
+    import json
+    spec = json.loads(json.dumps(extra))
+    spec.update({'id': 'c0', 'holder': 'dict', 'global': 'g0'})
+    if t == 'stylesheet':
+        spec['type'] = t
+    syn = 'css' if t == 'stylesheet' else 'html'
+    world = {'configs': {'c0': spec, 'c1': dict(json.loads(json.dumps(spec)), id='c1', holder='Config')}, 'caches': [], 'globals': {'g0': {}}}
+    ops = []
+    pair = 0
+    for pos in ('user', 'global-type', 'global-syntax'):
+        for cfg in ('c0', 'c1'):
+            pair += 1
+            for side, v in enumerate((v1, v2)):
+                if pos == 'user':
+                    ops.append({'op': 'set_global', 'global': 'g0', 'layer': {}})
+                    ops.append({'op': 'edit_cfg', 'cfg': cfg, 'path': [sec, key], 'value': v, 'inplace': bool(side)})
+                else:
+                    ops.append({'op': 'edit_cfg', 'cfg': cfg, 'path': [sec, key], 'delete': True, 'inplace': bool(side)})
+                    ops.append({'op': 'set_global', 'global': 'g0', 'layer': {(t if pos == 'global-type' else syn): {sec: {key: v}}}})
+                    if cfg == 'c1':
+                        ops.append({'op': 'rebuild_cfg', 'cfg': 'c1'})
+                ops.append({'op': 'call', 'cfg': cfg, 'abbr': abbr, 'pin': 0, 'c20': True,
+                            'c20w': {'pair': pair, 'side': side, 'key': key, 'layer': pos, 'values': [v1, v2]}})
+    return {'world': world, 'ops': ops, 'meta': {'witness': [t, sec, key]}}
+
+
 def gen_c20_indexed(run_seed, index, tier=None):
     if index < GRID_SIZE:
         return gen_c20_grid(index)
+    if index < FIXED_SIZE:
+        return gen_c20_witness(index - GRID_SIZE)
     return gen_c20(run_seed)
